@@ -509,7 +509,15 @@ package task
 //@   preserves $RUNDATA
 //@   ensures e.Watch == old(e.Watch)                                                                                   [C07]
 // The spelling model is built once, by Setup, before any task runs; the (concurrent) lookups only read it.
+// the directory of the fingerprints (.task, unless TASK_TEMP_DIR says otherwise) is relative to the directory of the
+// ROOT TASKFILE, which is only known once the root node has been found: whatever the working directory an invocation
+// is started from, a task finds the fingerprint its last run recorded
+//@ ghost var rootKnown bool scratch
 //@ func (*Executor).Setup
+//@   init rootKnown := false
+//@   site (*Executor).getRootNode#0 ghost rootKnown := result.1 == nil
+//@   site (*Executor).setupTempDir#0 requires rootKnown                                                                [C05,C04]
+//@   site (*Executor).readTaskfile#0 requires rootKnown                                                                [C05,C09]
 //@   site (*Executor).setupFuzzyModel#0 requires arg0 == e                                                             [C18,C15]
 //@ func (*Executor).GetTask
 //@   nosite (*Executor).setupFuzzyModel                                                                                [C18]
@@ -551,7 +559,7 @@ package task
 // executions, the watcher's directory set, the defaulted sorter; the cache of dynamic variables, which is keyed
 // by command and directory). A memo added anywhere else - another field, a package-level variable - makes what a
 // task sees depend on which tasks were compiled before it, and fails here without any annotation of the new code.
-//@ state_fields Executor: executionHashes watchedDirs TaskSorter except NewExecutor *.ApplyToExecutor (*Executor).setup* (*Executor).getRootNode (*Executor).readTaskfile   [C11,C18]
+//@ state_fields Executor: executionHashes watchedDirs TaskSorter except NewExecutor *.ApplyToExecutor (*Executor).setup* (*Executor).getRootNode (*Executor).readTaskfile   [C11,C18,C07]
 //@ state_fields Compiler: dynamicCache except (*Executor).setupCompiler                                           [C11,C18]
 //@ state_fields globals: except init* experiments.Parse experiments.New                                           [C11,C18]
 
@@ -586,12 +594,20 @@ package task
 // that templating it, or the lazy templating of deferred commands, never writes into the task definition),
 // and the compiled task itself is a new object.
 //@ ghost var dotSeen bool scratch
+//@ ghost var dotPending bool scratch
 //@ func (*Executor).compiledTask
 // among the dotenv files of a task the FIRST file that defines a name wins: an entry is only added when the
 // name has not been taken yet
 //@   site (*Vars).Get#1 ghost dotSeen := result.1
 //@   site (*Vars).Set#1 requires !dotSeen                                                                      [C10]
 //@   site godotenv.Read#0 requires len(arg0) == 1           -- one file at a time, in the order they are listed   [C10]
+// every dotenv file of the task that exists is read, each time the task is compiled, whatever else has been
+// loaded from the same path before (the Taskfile's own dotenv list has a different - lower - precedence)
+//@   init dotPending := false
+//@   site filepathext.SmartJoin#2 ghost dotPending := true
+//@   site os.IsNotExist#1 ghost dotPending := !result
+//@   site godotenv.Read#0 ghost dotPending := false
+//@   loop 1 invariant !dotPending                                                                              [C10]
 //@   site append requires fresh(arg1[0])                                                                       [C11,C18,C14]
 // every command put into the compiled task (one per loop item, deferred, plain) keeps the attributes that
 // decide how its failure and its output are treated
